@@ -55,10 +55,55 @@ theorem C13_lookup_miss (c : Word) (h : ∀ l : Language, c ≠ l.iso) : getInte
 theorem C13_iso_injective : ∀ a b : Language, a.iso = b.iso → a = b := by
   intro a b; cases a <;> cases b <;> decide
 
+/-- the lookup, characterised exactly: a code resolves to `l` iff it is `l`'s ISO 639-1 code -/
+theorem C13_lookup_iff (c : Word) (l : Language) : getInterpreterFor c = some l ↔ c = l.iso := by
+  constructor
+  · exact C13_lookup_inj c l
+  · intro h; subst h; exact C13_lookup_hits l
+
+/-- the table lists every built-in language, each once -/
+theorem C13_table_complete : ∀ l : Language, l ∈ allLanguages := by
+  intro l; cases l <;> decide
+
+theorem C13_table_nodup : allLanguages.Nodup := by decide
+
+/-- the order of the lookup's arms is immaterial: scanning ANY list that contains every built-in
+language (in any order, with repetitions) gives the answer of `get_interpreter_for` -/
+theorem C13_lookup_order_indep (ls : List Language) (hall : ∀ l : Language, l ∈ ls) (c : Word) :
+    ls.find? (fun l => l.iso == c) = getInterpreterFor c := by
+  cases h : ls.find? (fun l => l.iso == c) with
+  | some l =>
+    have h2 : l.iso = c := by simpa using List.find?_some h
+    exact ((C13_lookup_iff c l).2 h2.symm).symm
+  | none =>
+    symm; apply C13_lookup_miss
+    intro l hc
+    have := List.find?_eq_none.1 h l (hall l)
+    simp [hc] at this
+
+/-- a code of any length other than two resolves to nothing (no prefix, suffix or padded match) -/
+theorem C13_lookup_len (c : Word) (h : c.length ≠ 2) : getInterpreterFor c = none := by
+  apply C13_lookup_miss
+  intro l hc; subst hc
+  cases l <;> exact absurd rfl h
+
+/-- the validator through the facade is the validator of the concrete interpreter -/
+theorem C13_facade_text2digits (cc : CharClasses) (l : Language) (s : Word) :
+    text2digits cc l.interp s = text2digits cc (concrete l) s := by rw [C13_facade]
+
+/-- and so is the token-stream search -/
+theorem C13_facade_findNumbers (cc : CharClasses) (l : Language) (sep : Tok → Tok → Bool) (thr : Nat → Bool)
+    (toks : List Tok) :
+    findNumbers { lang := l.interp, cc := cc, sep := sep, thrLt := thr } toks =
+      findNumbers { lang := concrete l, cc := cc, sep := sep, thrLt := thr } toks := by rw [C13_facade]
+
+
 /-! non-vacuity -/
 example : getInterpreterFor w!"pt" = some .portuguese := by decide
 example : getInterpreterFor w!"xx" = none := by decide
 example : getInterpreterFor w!"EN" = none := by decide
 example : getInterpreterFor [] = none := by decide
+example : getInterpreterFor w!"en " = none := C13_lookup_len _ (by decide)
+example : allLanguages.reverse.find? (fun l => l.iso == w!"nl") = some .dutch := by decide
 
 end T2N.C13
